@@ -1,10 +1,11 @@
 namespace Gomjml.Api
-/-! Model of the public entry points (`mjml/render.go`) as a machine over the one piece of process-wide state that
-    rendering reads: the global attribute store `g` (`globals.instance`).  C06(b) / C08.
+/-! Model of the public entry points (`mjml/render.go`) as a machine over what one call can leave behind for the next: the
+    component trees a caller keeps.  C06(b) / C08.
 
-    `attrs d` = the store built from document `d`'s own head.  A component tree captures the mj-class definitions when it is
-    built (`NewBaseComponent` resolves `mj-class` at construction) and reads tag / mj-all defaults when it is rendered
-    (`GetAttributeWithDefault`), so its HTML is a function `html d gBuild gRender`. -/
+    `attrs d` = the attribute store built from document `d`'s own head.  Since 72a1ca4 every compilation carries its store in its
+    render options: a component tree resolves mj-class when it is built and reads tag / mj-all defaults when it is rendered —
+    both from the store it was built with (`html d gBuild gRender` with `gRender = gBuild`).  Before, both came from a
+    process-wide variable, and a tree rendered after another compilation read that compilation's defaults. -/
 
 abbrev Doc := Nat
 abbrev G := Nat
@@ -22,7 +23,6 @@ structure World where
   reorder : Html → Html                  -- normalizeGroupColumnClassOrder
 
 structure St where
-  g : Option G                           -- none = nothing compiled yet in this process
   trees : List (Doc × G × List G)        -- component trees created by NewFromAST: (document, store at build, stores at earlier renders)
 
 inductive Call
@@ -53,32 +53,32 @@ def step (w : World) (s : St) : Call → St × Res
   | .render d =>
     match w.parse d with
     | .error e => (s, .fail e)
-    | .ok _ => ({ s with g := some (w.attrs d) }, finish w d (w.reorder (w.html d (w.attrs d) (w.attrs d) [])))
+    | .ok _ => (s, finish w d (w.reorder (w.html d (w.attrs d) (w.attrs d) [])))
   | .renderWithAST d =>
     match w.parse d with
     | .error e => (s, .fail e)
-    | .ok _ => ({ s with g := some (w.attrs d) }, finish w d (w.html d (w.attrs d) (w.attrs d) []))
+    | .ok _ => (s, finish w d (w.html d (w.attrs d) (w.attrs d) []))
   | .renderFromAST d =>
     match w.parse d with
     | .error e => (s, .fail e)
-    | .ok _ => ({ s with g := some (w.attrs d) }, finish w d (w.html d (w.attrs d) (w.attrs d) []))
+    | .ok _ => (s, finish w d (w.html d (w.attrs d) (w.attrs d) []))
   | .newFromAST d =>
     match w.parse d with
     | .error e => (s, .fail e)
-    | .ok _ => ({ g := some (w.attrs d), trees := s.trees ++ [(d, w.attrs d, [])] }, .ok 0)
+    | .ok _ => ({ trees := s.trees ++ [(d, w.attrs d, [])] }, .ok 0)
   | .renderTree k =>
     match s.trees[k]? with
     | none => (s, .noSuchTree)
-    | some (d, gb, seen) =>                                    -- reads whatever the store holds NOW
+    | some (d, gb, seen) =>                                    -- reads the store the tree was built with
       match w.renderErr d with
       | some e => (s, .fail e)
-      | none => ({ s with trees := s.trees.set k (d, gb, seen ++ [s.g.getD 0]) }, .ok (w.html d gb (s.g.getD 0) seen))
+      | none => ({ s with trees := s.trees.set k (d, gb, seen ++ [gb]) }, .ok (w.html d gb gb seen))
 
 def run (w : World) (s : St) : List Call → St × List Res
   | [] => (s, [])
   | c :: r => let (s1, o) := step w s c; let (s2, os) := run w s1 r; (s2, o :: os)
 
-def init : St := ⟨none, []⟩
+def init : St := ⟨[]⟩
 
 /-- what the call returns when it is the first thing a fresh process does -/
 def fresh (w : World) (c : Call) : Res := (step w init c).2
@@ -110,18 +110,61 @@ theorem new_then_render (w : World) (s : St) (d : Doc) (hp : w.parse d = .ok ())
     (step w s1 (.renderTree s.trees.length)).2 = .ok (w.html d (w.attrs d) (w.attrs d) []) := by
   simp [step, hp, hr]
 
-/-- a tree rendered later depends on the store left by whatever was compiled in between … -/
-theorem tree_reads_current_store (w : World) (s : St) (k : Nat) (d : Doc) (gb : G) (seen : List G) (hk : s.trees[k]? = some (d, gb, seen))
+/-- a tree is rendered with the store it was built with, whatever was compiled in between -/
+theorem tree_own_store (w : World) (s : St) (k : Nat) (d : Doc) (gb : G) (seen : List G) (hk : s.trees[k]? = some (d, gb, seen))
     (hr : w.renderErr d = none) :
-    (step w s (.renderTree k)).2 = .ok (w.html d gb (s.g.getD 0) seen) := by
+    (step w s (.renderTree k)).2 = .ok (w.html d gb gb seen) := by
   simp [step, hk, hr]
 
-/-- … so it equals the fresh result whenever the store still holds this document's own attributes -/
-theorem tree_ok_if_store_own (w : World) (s : St) (k : Nat) (d : Doc) (seen : List G) (hk : s.trees[k]? = some (d, w.attrs d, seen))
-    (hg : s.g = some (w.attrs d)) (hstateless : w.html d (w.attrs d) (w.attrs d) seen = w.html d (w.attrs d) (w.attrs d) [])
-    (hr : w.renderErr d = none) :
-    (step w s (.renderTree k)).2 = .ok (w.html d (w.attrs d) (w.attrs d) []) := by
-  simp [step, hk, hg, hstateless, hr]
+/-- no call touches a tree other than the one it renders: the record of tree `k` survives every other call -/
+theorem tree_untouched (w : World) (s : St) (c : Call) (k : Nat) (hk : k < s.trees.length) (hc : c ≠ .renderTree k) :
+    (step w s c).1.trees[k]? = s.trees[k]? := by
+  cases c with
+  | render d => simp only [step]; cases w.parse d <;> rfl
+  | renderWithAST d => simp only [step]; cases w.parse d <;> rfl
+  | renderFromAST d => simp only [step]; cases w.parse d <;> rfl
+  | newFromAST d =>
+    simp only [step]
+    cases w.parse d with
+    | error e => rfl
+    | ok _ => simp [List.getElem?_append_left hk]
+  | renderTree j =>
+    have hjk : j ≠ k := fun h => hc (by rw [h])
+    simp only [step]
+    cases hj : s.trees[j]? with
+    | none => rfl
+    | some t =>
+      obtain ⟨d, gb, seen⟩ := t
+      simp only []
+      cases w.renderErr d with
+      | some e => rfl
+      | none => simp [List.getElem?_set_ne hjk]
+
+/-- what rendering tree `k` returns depends on that tree's record only -/
+theorem tree_result_congr (w : World) (s s' : St) (k : Nat) (h : s'.trees[k]? = s.trees[k]?) :
+    (step w s' (.renderTree k)).2 = (step w s (.renderTree k)).2 := by
+  simp only [step, h]
+  cases s.trees[k]? with
+  | none => rfl
+  | some t =>
+    obtain ⟨d, gb, seen⟩ := t
+    simp only []
+    cases w.renderErr d <;> rfl
+
+/-- **C08 for kept trees**: what rendering tree `k` returns is the same before and after ANY history of other calls -/
+theorem tree_history_independent (w : World) : ∀ (hist : List Call) (s : St) (k : Nat), k < s.trees.length →
+    (∀ c ∈ hist, c ≠ .renderTree k) →
+    (step w (run w s hist).1 (.renderTree k)).2 = (step w s (.renderTree k)).2
+  | [], s, k, _, _ => rfl
+  | c :: r, s, k, hk, hc => by
+    have h1 := tree_untouched w s c k hk (hc c (by simp))
+    have hlen : k < (step w s c).1.trees.length := by
+      have : (step w s c).1.trees[k]? ≠ none := by rw [h1]; simp [hk]
+      exact (List.getElem?_eq_some_iff.mp (Option.ne_none_iff_exists'.mp this).choose_spec).1
+    have ih := tree_history_independent w r (step w s c).1 k hlen (fun x hx => hc x (by simp [hx]))
+    have hrun : (run w s (c :: r)).1 = (run w (step w s c).1 r).1 := by simp [run]
+    rw [hrun, ih]
+    exact tree_result_congr w s (step w s c).1 k h1
 
 /-- **C06(b) trichotomy**: every call returns exactly one of the three result shapes, and a validation error never
     changes the HTML -/
